@@ -224,11 +224,9 @@ def check_tu(ctx, tu):
                     # the predicate parameter is taken by value: strip the copy construction
                     while wf.nodes[lam]['cls'] in ('CXXConstructExpr',) and wf.nodes[lam].get('args'):
                         lam = wf.strip_all_casts(wf.nodes[lam]['args'][0])
-                    if wf.nodes[lam]['cls'] != 'LambdaExpr':
-                        raise AnalysisBroken('C07.W2: wait predicate at %s is not a lambda (unsupported form)' % wf.nloc(n))
-                    lfn = tu.by_id.get(wf.nodes[lam]['fid'])
+                    lfn = wf.functor_body(args[-1]) or wf.functor_body(lam)      # a lambda, or a named functor class with one operator()
                     if lfn is None:
-                        raise AnalysisBroken('C07.W2: predicate lambda body not found for %s' % wf.q)
+                        raise AnalysisBroken('C07.W2: wait predicate at %s is neither a lambda nor a library functor the analysis can read' % wf.nloc(n))
                     try:
                         f = canon_formula(F.formula(lfn))
                     except F.Unsupported as e:
@@ -370,7 +368,17 @@ def swap_with_fresh_local(fn, w):
     return True
 
 
-def notify_after(ctx, tu, fn, pos, pred, visiting):
+def helper_always_notifies(ctx, tu, g, pred, visiting):
+    key = ('helper', g.id)
+    if key in visiting:
+        return False
+    if not any((g.callee(n) or {}).get('name') in ('notify_one', 'notify_all') for n in g.calls()):
+        return False
+    ok, _ = notify_after(ctx, tu, g, (g.entry, -1), pred, visiting | {key}, no_callers=True)
+    return ok
+
+
+def notify_after(ctx, tu, fn, pos, pred, visiting, no_callers=False):
     """Every normal path from `pos` reaches a notify_* call, or skips it only on the false edge of a test implied
     by the predicate. If the function can return first, all library call sites must satisfy the same."""
     key = (fn.id, pos)
@@ -382,6 +390,11 @@ def notify_after(ctx, tu, fn, pos, pred, visiting):
         cal = fn.callee(n)
         if cal and cal['name'] in ('notify_one', 'notify_all'):
             notif_pos[fn.pos(n)] = n
+        elif cal and cal.get('lib') and len(visiting) < 6:
+            # a library helper that itself notifies on every path (up to the same predicate-implied skips) counts as the notify
+            for g in fn.callee_fns(n):
+                if g.id != fn.id and queue_of(g) and g.kind != 'lambda' and helper_always_notifies(ctx, tu, g, pred, visiting):
+                    notif_pos[fn.pos(n)] = n
     # forward exploration at element granularity
     b0, i0 = pos
     work = [(b0, i0 + 1)]
@@ -407,23 +420,28 @@ def notify_after(ctx, tu, fn, pos, pred, visiting):
         if len(succ) == 2 and blk.get('cond'):
             # false edge of a predicate re-test may skip the notify
             skip_false = False
+            skip_true = False
             try:
                 cf = canon_formula(F.boolexpr(fn, blk['cond'], {}, True))
                 if pred is not None:
                     ok, _ = implies(pred, cf)
-                    skip_false = ok
+                    skip_false = ok                  # on the false edge the predicate cannot hold: nobody to wake
+                    ok2, _ = implies(pred, ('not', cf))
+                    skip_true = ok2                  # likewise on the true edge of a test the predicate excludes (guard clause `if(!pred) return;`)
             except (F.Unsupported, Exception):
                 skip_false = False
+                skip_true = False
             # the re-test has to look at the state *after* the write: a local that was computed before the write (and is merely read
             # here) describes the state another thread may have changed since - skipping the notify on its word loses a wake-up
-            if skip_false:
+            if skip_false or skip_true:
                 c0 = blk['cond']
                 for d in [c0] + fn.descendants(c0):
                     if fn.nodes[d]['cls'] == 'DeclRefExpr' and fn.decl(d).get('kind') == 'var':
                         vd = fn.var_decls().get(fn.decl(d)['id'])
                         if vd and vd.get('stmt') and fn.pos(vd['stmt']) and not fn.pos_reaches(pos, fn.pos(vd['stmt'])):
                             skip_false = False
-            if succ[0] is not None:
+                            skip_true = False
+            if succ[0] is not None and not skip_true:
                 work.append((succ[0], 0))
             if succ[1] is not None and not skip_false:
                 work.append((succ[1], 0))
@@ -433,6 +451,8 @@ def notify_after(ctx, tu, fn, pos, pred, visiting):
                     work.append((s, 0))
     if not escapes:
         return True, ''
+    if no_callers:
+        return False, 'helper can return without notifying'
     # the function may return without notifying: every library caller must notify after the call
     callers = tu.callers().get(fn.id, [])
     if not callers:
